@@ -39,8 +39,8 @@ ASSUMPTIONS = [
     "which assertion rejects a document is not compared (only accepted / rejected); the agreement of the assertion class with "
     "the model's is recorded as a statistic (rejections_same_assertion_as_model)",
     "geometry tolerances are relative to the smallest dimension of the design: boundary-valid documents keep every area / size "
-    "at the scale of the coordinates (>= 1/16 for coordinates below 2^8); the one document below that scale is the open finding "
-    "C05/well-formed-rejected-small-scale",
+    "at the scale of the coordinates (>= 1/16 for coordinates below 2^8), where x + epsilon is not rounded back to x; the one "
+    "document beyond that scale is corpus/C05/flip-stog-small-epsilon.json (finding C05/well-formed-rejected-small-scale, repaired)",
 ]
 
 CLASSES = ["unknown-module", "nonpositive-weight", "nonpositive-area", "soft-without-area", "hard-with-area",
